@@ -36,7 +36,8 @@ def core_part(tier, wd, out):
     return mc, g, t, n_obs
 
 
-ITEMS = {"if": "  import f: func();\n", "ef": "  export f: func();\n", "ii": "  import i;\n", "ei": "  export i;\n", "ek": "  export k: async func();\n"}
+ITEMS = {"if": "  import f: func();\n", "ef": "  export f: func();\n", "ii": "  import i;\n", "ei": "  export i;\n", "ek": "  export k: async func();\n",
+         "ir": "  resource c { f: func(); }\n"}
 GEN_LANGS = ["rust", "c", "go", "moonbit"]
 
 
